@@ -170,6 +170,9 @@ func checkC09(ci interface{}, x *Ctx) {
 	shape, _, _ := models.EffectiveShape(m, c.EM)
 	x.Class("fault:" + spec.Name)
 	x.Class("place:" + c.Prog.placeName())
+	if c.Prog.Twice {
+		x.Class("two-failing-children-in-one-conc-block")
+	}
 	x.Class("shape:" + shape)
 	if c.Pool {
 		x.Class("pool")
@@ -313,10 +316,13 @@ func probeAllWith(x *Ctx, tg *schedTarget, max int, name string, what string) []
 func init() {
 	register(&Prop{
 		ID:   "C09",
-		Rule: "fault catalogue (type mismatches in arithmetic/comparison/logic, non-boolean if/else-if/for conditions, ! on non-boolean, missing variable/function (with and without arguments)/method (two- and three-level, with and without arguments)/field/object, nil-pointer field read/write/method, index out of range and negative (literal and variable, read and write, slice and array), string index on slice, wrong key kind, forRange over scalar/nil/missing, too few/many/ill-typed call arguments, panicking function/method/three-level call, unbounded for, zero divisors, unassignable targets, ill-typed stores into fields, elements and pointer-injected scalars, break/continue outside a loop, returning a value read from an unexported field) x placement (assignment right-hand side and target, if/else-if/for condition, for init/step, loop body, return, call argument, conc child, under 0-2 enclosing if/else/else-if/for/forRange) x every one of the 21 engine and 24 pool execute methods, the faulty rule at a generated priority among 2-4 healthy observer rules; oracle: the call returns within the bound without panic, the faulty rule does not run to its end, error and healthy rules obey the method's reference model, a later healthy call on the same engine/pool is clean and the pool still serves max simultaneous requests. Thorough enumerates the full product once, then samples. Non-trivial: fault outside the self-recovering constructs (assignment, calls) or a concurrent model; distinct by case hash",
+		Rule: "fault catalogue (type mismatches in arithmetic/comparison/logic, non-boolean if/else-if/for conditions, ! on non-boolean, missing variable/function (with and without arguments)/method (two- and three-level, with and without arguments)/field/object, nil-pointer field read/write/method, index out of range and negative (literal and variable, read and write, slice and array), string index on slice, wrong key kind, forRange over scalar/nil/missing, too few/many/ill-typed call arguments, panicking function/method/three-level call, unbounded for, zero divisors, unassignable targets, ill-typed stores into fields, elements and pointer-injected scalars, break/continue outside a loop, returning a value read from an unexported field) x placement (two failing children in one conc block, assignment right-hand side and target, if/else-if/for condition, for init/step, loop body, return, call argument, conc child, under 0-2 enclosing if/else/else-if/for/forRange) x every one of the 21 engine and 24 pool execute methods, the faulty rule at a generated priority among 2-4 healthy observer rules; oracle: the call returns within the bound without panic, the faulty rule does not run to its end, error and healthy rules obey the method's reference model, a later healthy call on the same engine/pool is clean and the pool still serves max simultaneous requests. Thorough enumerates the full product once, then samples. Non-trivial: fault outside the self-recovering constructs (assignment, calls) or a concurrent model; distinct by case hash",
 		New:  func() interface{} { return &C09Case{} },
 		Gen: func(t *rapid.T) interface{} {
 			c := &C09Case{Prog: genFaultProgram(t, nil)}
+			if pl := c.Prog.placeName(); (pl == "conc" || pl == "conc-assign" || pl == "conc-call-arg" || pl == "conc-stmt-call") && pct(t, "two_failing_children", 40) {
+				c.Prog.Twice = true
+			}
 			c.Pool = rapid.Bool().Draw(t, "pool")
 			ms := gx.MethodNames(c.Pool)
 			c09Complete(t, c, ms[uni(t, "method", 0, len(ms)-1)])
